@@ -63,7 +63,7 @@ CHECKS = {
         "1-8 reader threads on the real AnalysisHost under seeded yields/sleeps; the globally ordered event log is converted to a model schedule, "
         "run by the Lean driver, and the outcome (answered / cancelled per reader, final revision) must coincide; the oracle compares every answer "
         "with a sequential reference for the snapshot's own version, checks no panic, bounded apply latency against a 0.8 s cold query batch, and "
-        "that later snapshots see the new workspace. PARTIAL: real interleavings are sampled, not enumerated; salsa is trusted."),
+        "that later snapshots see the new workspace. PARTIAL: real interleavings are sampled, not enumerated; salsa is trusted. The readers' module contains deeply nested code and runs on the big module let the change arrive up to tenths of a second into a query (a cancelled long query must still end as Cancelled, never as a panic or an abort)."),
   note=TB + "Modelled, not verified: salsa's runtime (revision counter, query lock, cancellation flag) by its documented contract; thread scheduling of the OS.", ref="5.C12, 4.6"),
  "C11": dict(
   technique="Lean 4 proof of history independence of the reachable database inputs (M-db) + tie on the inputs through a read-only hook + fresh-instance oracle",
@@ -73,7 +73,7 @@ CHECKS = {
         "database inputs (hook AnalysisHost::verif_inputs) are compared with the model's view; the answers of the long-lived host are compared "
         "with a fresh database in the same process and with another fresh one in a second process queried in reverse order. PARTIAL: salsa's "
         "memoisation is trusted and purity of the derived queries is tested, not proved - three genuine order/hash dependences are recorded "
-        "(module-name collisions, type-variable letters, inference order inside ill-typed recursion groups)."),
+        "(module-name collisions, type-variable letters, inference order inside ill-typed recursion groups). The same multi-package workspace (several dependencies exporting one module name) is analysed in several fresh processes and must give the same answers; histories contain qualifier-only edits and several writes of one file in one change."),
   note=TB + "Modelled, not verified: salsa inputs as association lists; durabilities are not modelled.", ref="5.C11, 4.5"),
  "C17": dict(
   technique="Lean 4 proofs about the path functions (M-project) + tie through the verif hooks on generated project trees + end-to-end through the binary",
@@ -126,7 +126,7 @@ CHECKS = {
         "implementation (harness `sweep`): every range in every answer of every query at every token boundary must be a node or token range of the "
         "file it names (exactly a token for name-like results: definition focus, references, highlights, rename edits, prepare-rename, semantic "
         "highlights), inside the text, on character boundaries, in an existing file; the module target (0,0) is the documented empty range. Three "
-        "genuine deviations recorded (focus range of constructors, fields, spread binders is a node, not the name token)."),
+        "genuine deviations recorded (focus range of constructors, fields, spread binders is a node, not the name token). The ranges as the server sends them (after conversion in the negotiated position encoding) are sliced in the editor's copy of the named document in sessions over three documents with different line tables."),
   note=TB + SYN + "That the analysis reports only tree ranges is monitored, not proved.", ref="5.C20"),
  "C06": dict(
   technique="Lean 4 proof of the search layer stated outright (M-search) instantiated with the implementation's own classification + inverse-view oracle",
@@ -134,7 +134,7 @@ CHECKS = {
         "highlight_iff (highlight = references in the file) and the gap lemma exact_iff: when the search name is the declared name and the search "
         "scope is complete, an occurrence is listed exactly when go-to-definition leads to the declaration (Props/C06.lean). Tie: the model (Lean "
         "driver `refs`) is fed the implementation's go-to-definition answer at every identifier token and must predict its references; the oracle "
-        "compares references with go-to-definition for every token spelled with the declaration's name. One genuine defect recorded (spread binders)."),
+        "compares references with go-to-definition for every token spelled with the declaration's name. One genuine defect recorded (spread binders). Also: constructed workspaces with known occurrence groups (fields used without importing the declaring module, references behind strings containing `//`, a module ending in an identifier behind multi-byte text, deep module paths, per-variant labels)."),
   note=TB + SCOPE + "classify (go-to-definition) is a parameter of the model, taken from the implementation.", ref="5.C06"),
  "C07": dict(
   technique="Lean 4 proofs of edit application, rename-back and alpha-renaming with a fresh name (M-scope) + re-analysis oracle on the implementation",
@@ -151,7 +151,7 @@ CHECKS = {
         "rename_accepts_iff states the decision outright (Props/C08.lean). Tie: every identifier token of a two-package workspace (local + "
         "build/packages dependency) x 36 candidate names, verdict compared with the property's table; prepare-rename vs existence of an accepted "
         "rename; no edit in dependency files; model lexer vs real lexer on the candidates. Two genuine defects were found and repaired (fix: commits "
-        "99ebbbe, ea42aa3)."),
+        "99ebbbe, ea42aa3). End to end through the binary: the dependency stays external while gleam.toml is changed and re-read, and when a local package of the same name is opened first; the symbol's own name is tried as new name."),
   note=TB + "The extraction is structural (match arms, guards, flags by normalised-token search); the differential over the finite matrix validates it.",
   ref="5.C08"),
  "C05": dict(
@@ -162,7 +162,7 @@ CHECKS = {
         "for the module value table (Props/C05.lean). Tie: model (Lean driver) vs real go-to-definition on generated multi-module workspaces with "
         "heavy shadowing; the generator's binding-by-construction is the oracle. Four genuine defects of the unchanged tree are recorded "
         "(guards, let with hole/literal pattern, qualified constants, import of a name that is both type and constructor). Qualified access "
-        "through inference and type-namespace resolution are covered by the oracle only (partial)."),
+        "through inference and type-namespace resolution are covered by the oracle only (partial). Occurrences known by construction (records across modules, modules 2-5 path segments deep, labels shared by some variants, prefix operators) must each lead to their declaration; the recorded findings' own inputs are replayed first."),
   note=TB + SCOPE, ref="5.C05, 4.3"),
  "C18": dict(
   technique="Lean 4 proof that the two code paths (values_names_in_scope, resolve_name) agree, over M-scope + differential through completion",
